@@ -129,6 +129,29 @@ Qed.
 Definition luaResults (regs : list cell) (A B : Z) : list cell :=
   if B =? 0 then skipn (Z.to_nat A) regs else resizeL (skipn (Z.to_nat A) regs) (B - 1).
 
+Lemma resizeL_le (X : list cell) b n : 0 <= n <= b -> resizeL (resizeL X b) n = resizeL X n.
+Proof. intros. pose proof (len_nonneg X). unfold resizeL. pw. Qed.
+
+Lemma resizeL_len (X : list cell) : resizeL X (len X) = X.
+Proof. pose proof (len_nonneg X). unfold resizeL. pw. Qed.
+
+Lemma resizeN_pre_resizeL (pre Y : list cell) n : 0 <= n ->
+  resizeN (pre ++ resizeL Y n) (len pre + n) = pre ++ resizeL Y n.
+Proof. intros. pose proof (len_nonneg pre). pose proof (len_nonneg Y). unfold resizeN, resizeL. pw. Qed.
+
+Lemma fillNil_tail (pre X : list cell) n b : 0 <= b <= n ->
+  fillNilL (pre ++ resizeL X n) (len pre + b) (n - b) = pre ++ resizeL (resizeL X b) n.
+Proof. intros. pose proof (len_nonneg pre). pose proof (len_nonneg X). unfold fillNilL, resizeL. pw. Qed.
+
+Lemma fillNil_all (pre rest : list cell) n : 0 <= n ->
+  fillNilL (pre ++ rest) (len pre) n = pre ++ resizeL [] n.
+Proof. intros. pose proof (len_nonneg pre). pose proof (len_nonneg rest). unfold fillNilL, resizeL. pw. Qed.
+
+Lemma copy_down_list (pre : list cell) fn (regs : list cell) A n : 0 <= A <= len regs -> 0 <= n ->
+  firstn (Z.to_nat (len pre)) (pre ++ fn :: regs) ++
+  resizeL (skipn (Z.to_nat (len pre + 1 + A)) (pre ++ fn :: regs)) n = pre ++ resizeL (skipn (Z.to_nat A) regs) n.
+Proof. intros. pose proof (len_nonneg pre). unfold resizeL. pw. Qed.
+
 Lemma lua_results_lemma : forall r pre fn regs A B wanted lim,
   Rr r (pre ++ fn :: regs) lim -> 0 <= A -> 0 <= B -> -1 <= wanted ->
   A + Z.max 0 (B - 1) <= len regs ->
@@ -137,61 +160,42 @@ Lemma lua_results_lemma : forall r pre fn regs A B wanted lim,
              Rr r' (pre ++ adjust wanted (luaResults regs A B)) lim.
 Proof.
   intros r pre fn regs A B wanted lim HR HA HB Hw HAB Hfit.
-  pose proof (len_nonneg pre). pose proof (len_nonneg regs).
+  pose proof (len_nonneg pre) as Hp0. pose proof (len_nonneg regs) as Hr0.
   pose proof HR as [Ht Hcap _ Hlim _].
   assert (HL : len (pre ++ fn :: regs) = len pre + 1 + len regs) by (rd_norm; lia).
-  unfold luaReturn, copyReturnValues, adjust, luaResults, MultRet in *.
-  set (nret := if B =? 0 then top r - (len pre + 1 + A) else B - 1).
-  set (n := if wanted =? -1 then nret else wanted).
-  assert (Hnret : nret = if B =? 0 then len regs - A else B - 1) by (unfold nret; destruct (B =? 0); lia).
-  assert (Hn0 : 0 <= n) by (unfold n; destruct (wanted =? -1) eqn:E; destruct (B =? 0) eqn:E2; lia).
-  assert (Hnl : len pre + n <= lim).
-  { unfold n. destruct (wanted =? -1) eqn:E; [|lia]. destruct (B =? 0) eqn:E2; lia. }
-  destruct (B =? 1) eqn:EB1.
-  - (* no values: FillNil *)
-    assert (B = 1) by lia. subst B. replace (1 =? 0) with false in * by reflexivity.
-    destruct (FillNil_ok r _ lim (len pre) n HR) as (r1 & Q1 & HR1); try lia. rewrite Q1. cbn [bind].
-    assert (Hlist : fillNilL (pre ++ fn :: regs) (len pre) n = pre ++ repeat cNil (Z.to_nat n)) by (unfold fillNilL; pw).
-    rewrite Hlist in HR1.
-    destruct (wanted =? -1) eqn:E.
-    + exists r1. split; [reflexivity|]. unfold n, nret in HR1; rewrite ?E in HR1; cbn [Z.eqb] in HR1.
-      replace (resizeL (skipn (Z.to_nat A) regs) (1 - 1)) with (@nil cell); [rewrite app_nil_r in *; exact HR1|].
-      unfold resizeL. pw.
-    + unfold n in *; rewrite ?E in *.
-      destruct (SetTop_ok r1 _ lim (len pre + wanted) HR1) as (r2 & Q2 & HR2); [lia|]. exists r2. split; [exact Q2|].
-      replace (pre ++ resizeL (resizeL (skipn (Z.to_nat A) regs) (1 - 1)) wanted)
-        with (resizeN (pre ++ repeat cNil (Z.to_nat wanted)) (len pre + wanted)); [exact HR2|].
-      unfold resizeN, resizeL. pw.
-  - destruct (CopyRange_ok r _ lim (len pre) (len pre + 1 + A) (-1) n HR) as (r1 & Q1 & HR1); try lia.
-    rewrite Q1. cbn [bind]. rewrite copyRangeL_down in HR1 by lia.
-    assert (Hlist : firstn (Z.to_nat (len pre)) (pre ++ fn :: regs) ++
-                    resizeL (skipn (Z.to_nat (len pre + 1 + A)) (pre ++ fn :: regs)) n
-                    = pre ++ resizeL (skipn (Z.to_nat A) regs) n) by (unfold resizeL; pw).
-    rewrite Hlist in HR1.
-    (* the values beyond the B-1 returned ones are nilled *)
-    assert (exists r2, (if (B >? 1) && (n >? B - 1) then FillNil r1 (len pre + B - 1) (n - (B - 1)) else Ok r1) = Ok r2 /\
-                       Rr r2 (pre ++ resizeL (if B =? 0 then skipn (Z.to_nat A) regs
-                                              else resizeL (skipn (Z.to_nat A) regs) (B - 1)) n) lim) as (r2 & Q2 & HR2).
-    { destruct ((B >? 1) && (n >? B - 1)) eqn:E.
-      - assert (Hlen1 : len (pre ++ resizeL (skipn (Z.to_nat A) regs) n) = len pre + n) by (unfold resizeL; rd_norm; lia).
+  set (res := luaResults regs A B).
+  assert (Hres : len res = if B =? 0 then len regs - A else B - 1).
+  { unfold res, luaResults, resizeL. destruct (B =? 0) eqn:E; rd_norm; lia. }
+  (* the count copyReturnValues is asked for *)
+  set (n := if wanted =? -1 then len res else wanted).
+  assert (Hn0 : 0 <= n) by (unfold n; destruct (wanted =? -1); destruct (B =? 0); lia).
+  assert (Hnl : len pre + n <= lim) by (unfold n; destruct (wanted =? -1); destruct (B =? 0); lia).
+  (* copyReturnValues leaves pre ++ resizeL res n *)
+  assert (Hcopy : exists r1, copyReturnValues r (len pre) (len pre + 1 + A) n B = Ok r1 /\
+                             Rr r1 (pre ++ resizeL res n) lim).
+  { unfold copyReturnValues. destruct (B =? 1) eqn:EB1.
+    - assert (B = 1) by lia. subst B.
+      destruct (FillNil_ok r _ lim (len pre) n HR) as (r1 & Q1 & HR1); try lia.
+      exists r1. split; [exact Q1|]. rewrite fillNil_all in HR1 by lia.
+      replace (resizeL res n) with (resizeL [] n); [exact HR1|].
+      unfold res, luaResults. cbn [Z.eqb Z.sub Z.add Z.opp Z.pos_sub]. rewrite resizeL_le by lia. reflexivity.
+    - destruct (CopyRange_ok r _ lim (len pre) (len pre + 1 + A) (-1) n HR) as (r1 & Q1 & HR1); try lia.
+      rewrite Q1. cbn [bind]. rewrite copyRangeL_down in HR1 by lia. rewrite copy_down_list in HR1 by lia.
+      destruct ((B >? 1) && (n >? B - 1)) eqn:E.
+      + assert (Hlen1 : len (pre ++ resizeL (skipn (Z.to_nat A) regs) n) = len pre + n) by (unfold resizeL; rd_norm; lia).
         destruct (FillNil_ok r1 _ lim (len pre + B - 1) (n - (B - 1)) HR1) as (r2 & Q2 & HR2); try lia.
-        exists r2. split; [exact Q2|]. destruct (B =? 0) eqn:E0; [lia|].
-        replace (pre ++ resizeL (resizeL (skipn (Z.to_nat A) regs) (B - 1)) n)
-          with (fillNilL (pre ++ resizeL (skipn (Z.to_nat A) regs) n) (len pre + B - 1) (n - (B - 1))); [exact HR2|].
-        unfold fillNilL, resizeL. pw.
-      - exists r1. split; [reflexivity|]. destruct (B =? 0) eqn:E0; [exact HR1|].
-        replace (resizeL (resizeL (skipn (Z.to_nat A) regs) (B - 1)) n) with (resizeL (skipn (Z.to_nat A) regs) n); [exact HR1|].
-        unfold resizeL. pw. }
-    rewrite Q2. cbn [bind].
-    destruct (wanted =? -1) eqn:E.
-    + exists r2. split; [reflexivity|].
-      replace (if B =? 0 then skipn (Z.to_nat A) regs else resizeL (skipn (Z.to_nat A) regs) (B - 1))
-        with (resizeL (if B =? 0 then skipn (Z.to_nat A) regs else resizeL (skipn (Z.to_nat A) regs) (B - 1)) n); [exact HR2|].
-      unfold n; rewrite ?E; rewrite Hnret. destruct (B =? 0) eqn:E0; unfold resizeL; pw.
-    + unfold n in *; rewrite ?E in *.
-      destruct (SetTop_ok r2 _ lim (len pre + wanted) HR2) as (r3 & Q3 & HR3); [lia|]. exists r3. split; [exact Q3|].
-      match type of HR3 with Rr _ ?x _ =>
-        replace x with (pre ++ resizeL (if B =? 0 then skipn (Z.to_nat A) regs else resizeL (skipn (Z.to_nat A) regs) (B - 1)) wanted) in HR3;
-          [exact HR3|] end.
-      unfold resizeN, resizeL. destruct (B =? 0); pw.
+        exists r2. split; [exact Q2|].
+        replace (len pre + B - 1) with (len pre + (B - 1)) in HR2 by lia. rewrite fillNil_tail in HR2 by lia.
+        unfold res, luaResults. destruct (B =? 0) eqn:E0; [lia|]. exact HR2.
+      + exists r1. split; [reflexivity|]. unfold res, luaResults. destruct (B =? 0) eqn:E0; [exact HR1|].
+        rewrite resizeL_le by lia. exact HR1. }
+  destruct Hcopy as (r1 & Q1 & HR1).
+  unfold luaReturn, adjust, MultRet. fold res.
+  replace (if B =? 0 then top r - (len pre + 1 + A) else B - 1) with (len res) by (rewrite Hres; destruct (B =? 0); lia).
+  fold n. rewrite Q1. cbn [bind].
+  destruct (wanted =? -1) eqn:E.
+  - exists r1. split; [reflexivity|]. unfold n in HR1. rewrite resizeL_len in HR1. exact HR1.
+  - unfold n in *.
+    destruct (SetTop_ok r1 _ lim (len pre + wanted) HR1) as (r2 & Q2 & HR2); [lia|].
+    exists r2. split; [exact Q2|]. rewrite resizeN_pre_resizeL in HR2 by lia. exact HR2.
 Qed.
